@@ -209,7 +209,11 @@ fn other_entry_points() {
             // the new contract asks for its own balance: it does not know its address in advance, so it
             // records env only; the balance is checked from outside through the trace's contract address
             let r = catch(|| {
-                w.app.instantiate_contract(1, user.clone(), &Script::new().then(Step::Mark { tag: "i".into() }), &f.map(|x| vec![coin(x, "x")]).unwrap_or_default(), "n", None)
+                let sc_ = Script::new()
+                    .then(Step::Mark { tag: "i".into() })
+                    .then(Step::QueryBalance { tag: "own".into(), addr: "@self".into(), denom: "x".into() })
+                    .then(Step::QueryBalance { tag: "sender".into(), addr: "@sender".into(), denom: "x".into() });
+                w.app.instantiate_contract(1, user.clone(), &sc_, &f.map(|x| vec![coin(x, "x")]).unwrap_or_default(), "n", None)
             });
             let r = match r {
                 Ok(r) => r,
@@ -239,6 +243,13 @@ fn other_entry_points() {
             check_env("instantiate_", e, &addr, &block);
             check_funds("instantiate_", e, &f);
             check("instantiate_funds_moved", eq(v(balance(&w.app, &addr, "x")), f.map(v).unwrap_or(k(0))));
+            // credited before the new contract runs: its own queries already see the funds (seed C10c)
+            if let Some(b) = obs_num(e, "own") {
+                check("instantiate_funds_credited_before_the_contract_runs", eq(v(b), f.map(v).unwrap_or(k(0))));
+            }
+            if let Some(b) = obs_num(e, "sender") {
+                check("instantiate_funds_credited_before_the_contract_runs", eq(v(b), sub(v(u0), f.map(v).unwrap_or(k(0)))));
+            }
         }
         1 => {
             sc::trace_clear();
